@@ -599,6 +599,9 @@ class ConfigParser(object):
     for param in params:
       if not re.match(r"^[a-zA-Z_]\w*$", param):
         raise ConfigParserException("Invalid parameter name '{0}' in function signature found in [Potential-Form]: '{1}'".format(param, pf))
+    # The expression library treats symbols case-insensitively: 'Z' and 'z' would be one variable
+    if len(set([p.lower() for p in params])) != len(params):
+      raise ConfigParserException("Parameter names in function signature must differ by more than case, found in [Potential-Form]: '{0}'".format(pf))
     return PotentialFormSignatureTuple(label, params, False)
 
   def _parse_params_section(self, section_name, parse_line_func):
